@@ -252,4 +252,6 @@ package types
 //@ (define-fun beaSumFee.def ((ms (Array Int Iface)) (n Int) (p beacon.Params)) Int
 //@   (ite (<= n 0) 0 (+ (beaSumFee ms (- n 1) p) (beaFeeOf (select ms (- n 1)) p))))
 //@ (define-fun beaTx ((t Iface)) Bool (exists ((j Int)) (and (<= 0 j) (< j (sl.len (txMsgs t))) (isBeaMsg (select (sl.arr (txMsgs t)) j)))))
+//@ ; the transaction executes a beacon message, directly or wrapped in a message that carries other messages (C06: "however they are wrapped")
+//@ (define-fun beaTxDeep ((t Iface)) Bool (exists ((j Int)) (and (<= 0 j) (< j (sl.len (txMsgs t))) (or (isBeaMsg (select (sl.arr (txMsgs t)) j)) (exists ((i Int)) (and (<= 0 i) (< i (sl.len (nestedMsgs (select (sl.arr (txMsgs t)) j)))) (isBeaMsg (select (sl.arr (nestedMsgs (select (sl.arr (txMsgs t)) j))) i))))))))
 //@ end
